@@ -202,8 +202,8 @@ fn run_property(id: &str, eng: &Engine, a: &Args) -> (&'static str, Vec<&'static
         }
         "C09" => {
             let n = if q { 3000 } else { 100_000 };
-            eng.explore("merkle-root", scaled(n, a), || (prop_oneof![4 => 1u16..40, 2 => 40u16..600, 1 => prop_oneof![Just(255u16), Just(256u16), Just(257u16), Just(1023u16), Just(1025u16)]], any::<u32>()).prop_map(|(n, seed)| MerkleCase { n, seed }).boxed(), check_merkle);
-            ("E2: utils::merkle_root on 1..1025 generated leaves vs the reference Bitcoin merkle root (odd levels duplicate their last hash).", vec![])
+            eng.explore("merkle-root", scaled(n, a), || (prop_oneof![40 => 1u32..40, 20 => 40u32..600, 10 => prop_oneof![Just(255u32), Just(256u32), Just(257u32), Just(1023u32), Just(1025u32)], 1 => prop_oneof![Just(65_535u32), Just(65_536u32), Just(65_537u32), Just(131_073u32)]], any::<u32>()).prop_map(|(n, seed)| MerkleCase { n, seed }).boxed(), check_merkle);
+            ("E2: utils::merkle_root on 1..1025 generated leaves and on 65535 / 65536 / 65537 / 131073 leaves (tree depths beyond 16) vs the reference Bitcoin merkle root (odd levels duplicate their last hash).", vec![])
         }
         "C11" => {
             let n = if q { 200_000 } else { 1_000_000 };
@@ -225,11 +225,11 @@ fn run_property(id: &str, eng: &Engine, a: &Args) -> (&'static str, Vec<&'static
                     cfg.nblocks = (1usize..=2).boxed();
                     cfg.ntx = prop_oneof![3 => 16usize..80, 1 => 0usize..4].boxed();
                     cfg.tx.max_common = 8;
-                    (gen::chain(&cfg), prop_oneof![Just(1u8), Just(2u8), Just(3u8), Just(8u8), Just(16u8), Just(64u8)]).prop_map(|(chain, threads)| PoolCase { chain, threads }).boxed()
+                    (gen::chain(&cfg), prop_oneof![Just(1u8), Just(2u8), Just(3u8), Just(8u8), Just(16u8), Just(64u8), Just(97u8), Just(200u8)]).prop_map(|(chain, threads)| PoolCase { chain, threads }).boxed()
                 },
                 check_pool,
             );
-            ("E2: read_block + Block::new executed inside rayon pools of 1/2/3/8/16/64 threads, three repetitions per block; order of transactions and of evaluated outputs compared with the sequential model.", vec![])
+            ("E2: read_block + Block::new executed inside rayon pools of 1/2/3/8/16/64/97/200 threads, three repetitions per block; order of transactions and of evaluated outputs compared with the sequential model.", vec![])
         }
         _ => ("", vec![]),
     }
